@@ -290,7 +290,7 @@ def winCheck (st : BusSt) (addr v : U16) : BusSt × String :=
         | .error e => (withBus st b1 ev, toString e)
         | .ok (b2, _, _) => (withBus st b2 ev, s!"same | {showEvents ev} | {hexBV under}")
 
-def busStep (st : BusSt) (args : List String) : BusSt × String :=
+def busStep2 (st : BusSt) (args : List String) : BusSt × String :=
   let b := st.bus
   match args with
   | "new" :: kind :: rest =>
@@ -445,5 +445,13 @@ def busStep (st : BusSt) (args : List String) : BusSt × String :=
         | .error e => (st, toString e)
     | _, _, _ => (st, "bad-op")
   | _ => (st, "bad-op")
+
+/-- `fill` (heap pre-fill of the harness process) has no effect on the model; `newraw` is `new` without
+the harness's zeroing of the ICU vector cells - the model's fresh machine has them zero. -/
+def busStep (st : BusSt) (args : List String) : BusSt × String :=
+  match args with
+  | ["fill", _] => (st, "ok")
+  | "newraw" :: rest => busStep2 st ("new" :: rest)
+  | _ => busStep2 st args
 
 end Drive.BusDrive
